@@ -1,5 +1,6 @@
 import SE.Proofs.Listener
 import SE.Props.C17
+import SE.Model.System
 /-
 C18 — Listeners frame lines identically on every transport and account for all of them.
 The same payload produces the same events whether it arrives as a UDP datagram, a Unixgram datagram
@@ -298,6 +299,76 @@ example : ∃ sched s, linesOf sched = relayCallsOf ([[97, 98, 10, 10, 99, 100]]
     relayRun (relayInit 8) sched = some s ∧ AllOk sched ∧ s.chan = [] ∧ s.buffer = [] ∧
     s.sent = [[97, 98, 10, 99, 100, 10]] :=
   ⟨[.line [97, 98], .line [99, 100], .deq true, .deq true, .tick true], _, by decide, rfl, by decide, rfl, rfl, rfl⟩
+
+/-! ## 4c. The same payload produces the same exporter state on every transport -/
+
+section endToEnd
+variable {V : Type} [NumOps V]
+
+/-- an empty line produces no event: the exporter state is untouched -/
+theorem empty_line_is_noop (fl : ParserFlags) (pf : Pf V) (rx : Rx) (p : Pipe V) (rest : List (PipeOp V)) :
+    runOps rx p (lineOp fl pf [] :: rest) = runOps rx p rest := by
+  simp [lineOp, lineToEvents, runOps, handleEvents]
+
+/-- … hence only the non-empty lines of a payload matter -/
+theorem only_nonempty_lines_matter (fl : ParserFlags) (pf : Pf V) (rx : Rx) (ls : List Bytes) (p : Pipe V)
+    (rest : List (PipeOp V)) :
+    runOps rx p (ls.map (lineOp fl pf) ++ rest) =
+      runOps rx p ((ls.filter fun l => !l.isEmpty).map (lineOp fl pf) ++ rest) := by
+  induction ls generalizing p with
+  | nil => rfl
+  | cons l ls ih =>
+    cases l with
+    | nil =>
+      simp only [List.map_cons, List.cons_append, List.filter_cons, List.isEmpty_nil, Bool.not_true,
+        Bool.false_eq_true, if_false]
+      rw [empty_line_is_noop]; exact ih p
+    | cons b bs =>
+      simp only [List.map_cons, List.cons_append, List.filter_cons, List.isEmpty_cons, Bool.not_false, if_true]
+      cases hop : lineOp fl pf (b :: bs) with
+      | line tags evs =>
+        simp only [runOps]
+        cases handleEvents p rx tags evs with
+        | none => rfl
+        | some r =>
+          cases r with
+          | error e => rfl
+          | ok p' => exact ih p'
+      | sweep => simp [lineOp] at hop
+      | advance n => simp [lineOp] at hop
+      | reload m => simp [lineOp] at hop
+
+/-- **Transport independence, end to end.** A payload without `\r` whose lines are shorter than 4096 bytes leaves the
+    exporter (mapper, registry, internal counters of the pipeline model) in the same state — including the same panic or
+    "outside the model" outcome — whether it arrives as one UDP/Unixgram datagram or as the byte stream of a TCP
+    connection, for every parser configuration, number parser, regex oracle, starting state and continuation `rest`. -/
+theorem transport_independent (fl : ParserFlags) (pf : Pf V) (rx : Rx) (p : Pipe V) (payload : Bytes)
+    (hcr : cr ∉ payload) (hshort : ∀ l ∈ datagramLines payload, l.length < bufSize) (rest : List (PipeOp V)) :
+    runOps rx p (tcpOps fl pf payload ++ rest) = runOps rx p (datagramOps fl pf payload ++ rest) := by
+  unfold tcpOps datagramOps
+  rw [only_nonempty_lines_matter, only_nonempty_lines_matter fl pf rx (datagramLines payload), tcp_eq_udp payload hcr hshort]
+
+/-- **Packing is irrelevant.** Sending two payloads in one datagram, separated by a newline, is the same as sending them
+    in two datagrams one after the other (so a client may batch lines into datagrams in any way). -/
+theorem datagram_packing_irrelevant (fl : ParserFlags) (pf : Pf V) (d1 d2 : Bytes) :
+    datagramOps fl pf (d1 ++ lf :: d2) = datagramOps fl pf d1 ++ datagramOps fl pf d2 := by
+  unfold datagramOps datagramLines
+  rw [splitOn_append_sep, List.map_append]
+
+/-- the exporter state after a sequence of datagrams is the state after the sequence of their lines -/
+theorem datagrams_are_their_lines (fl : ParserFlags) (pf : Pf V) (ds : List Bytes) :
+    ds.flatMap (datagramOps fl pf) = (ds.flatMap datagramLines).map (lineOp fl pf) := by
+  induction ds with
+  | nil => rfl
+  | cons d ds ih => simp only [List.flatMap_cons, List.map_append, ih]; rfl
+
+/-- non-vacuity: the payload "a:1|c\n\nb:2|g" (with an empty line in the middle) meets the hypotheses of
+    `transport_independent`, and its TCP and datagram line lists really differ in shape only by what the theorem ignores -/
+example : cr ∉ ([97, 58, 49, 124, 99, 10, 10, 98, 58, 50, 124, 103] : Bytes) ∧
+    (∀ l ∈ datagramLines [97, 58, 49, 124, 99, 10, 10, 98, 58, 50, 124, 103], l.length < bufSize) ∧
+    (datagramLines [97, 58, 49, 124, 99, 10, 10, 98, 58, 50, 124, 103]).length = 3 := by decide
+
+end endToEnd
 
 /-! ## 5. The UDP packet queue -/
 
